@@ -37,6 +37,25 @@ pub enum TinyOp {
     Note(u8),
     /// question number of a burst request
     AskN(u16),
+    /// an operation whose serialization fails for one particular value
+    Weird(Fussy),
+}
+
+/// Serializes like a u8 - except for the value 13, for which `Serialize` returns an error (the
+/// way a SystemTime before the epoch or a non-UTF-8 path does).
+#[derive(Clone, Copy, Debug, PartialEq, Eq, Default, Deserialize)]
+pub struct Fussy(pub u8);
+
+pub const FUSSY_MARKER: u8 = 13;
+
+impl Serialize for Fussy {
+    fn serialize<S: serde::Serializer>(&self, s: S) -> Result<S::Ok, S::Error> {
+        if self.0 == FUSSY_MARKER {
+            Err(serde::ser::Error::custom("this value cannot be serialized"))
+        } else {
+            s.serialize_u8(self.0)
+        }
+    }
 }
 
 #[derive(Clone, Debug, PartialEq, Eq, Serialize, Deserialize)]
@@ -110,9 +129,10 @@ pub struct Capabilities {
 }
 
 /// Number of shell-facing variants (the menu).
-pub const MENU: usize = 11;
+pub const MENU: usize = 14;
 pub const MENU_NAMES: [&str; MENU] = [
     "Single", "Two", "Sub", "Chain", "Render", "Timer", "LTimer", "Kv", "Http", "Legacy", "Quiet",
+    "FailTwo", "FailOne", "FussyView",
 ];
 
 /// The ten effectful menu events (the main explorations); `Quiet` (index 10) joins the
@@ -151,6 +171,12 @@ pub enum Event {
     Legacy,
     /// only mutates the model: no effect at all, not even a render
     Quiet,
+    /// [ordinary request, request whose operation cannot be serialized] in one batch
+    FailTwo,
+    /// a request whose operation cannot be serialized, alone
+    FailOne,
+    /// toggles a model state whose VIEW cannot be serialized (no effect)
+    FussyView,
     /// burst(n): n one-shot requests at once, each continuation folds (question, answer) into
     /// the view. Not part of the explored menus: used by C09's scripted scale family.
     Burst(u16),
@@ -191,6 +217,9 @@ pub fn menu_event(i: usize) -> Event {
         8 => Event::Http,
         9 => Event::Legacy,
         10 => Event::Quiet,
+        11 => Event::FailTwo,
+        12 => Event::FailOne,
+        13 => Event::FussyView,
         _ => panic!("no such menu event"),
     }
 }
@@ -202,6 +231,7 @@ pub struct Model {
     quiet: u32,
     burst_answers: u32,
     burst_digest: u64,
+    fussy_view: bool,
     sub: Option<Box<dyn Fn() + Send + Sync>>,
     ctimer: Option<TimerHandle>,
     ctimers_made: u32,
@@ -217,6 +247,8 @@ pub struct ViewModel {
     /// answers to burst requests so far, and an order-sensitive fold of every
     /// (question, answer) pair: any answer reaching another continuation changes it
     pub burst: (u32, u64),
+    /// `Fussy(13)` while the model is in the state whose view cannot be serialized
+    pub fussy: Fussy,
     pub subscribed: bool,
     pub timers: (u32, u32),
 }
@@ -335,6 +367,17 @@ impl crux_core::App for App {
                     .burst_digest
                     .wrapping_mul(0x100000001b3)
                     .wrapping_add((u64::from(q) << 16) | u64::from(out.0));
+                Command::done()
+            }
+            Event::FailTwo => Command::all([
+                Command::request_from_shell(TinyOp::Ask(8)).then_send(|o| Event::Got(8, o)),
+                Command::request_from_shell(TinyOp::Weird(Fussy(FUSSY_MARKER)))
+                    .then_send(|o| Event::Got(9, o)),
+            ]),
+            Event::FailOne => Command::request_from_shell(TinyOp::Weird(Fussy(FUSSY_MARKER)))
+                .then_send(|o| Event::Got(9, o)),
+            Event::FussyView => {
+                model.fussy_view = !model.fussy_view;
                 Command::done()
             }
             Event::Quiet => {
@@ -485,6 +528,7 @@ impl crux_core::App for App {
             renders: model.renders,
             quiet: model.quiet,
             burst: (model.burst_answers, model.burst_digest),
+            fussy: Fussy(if model.fussy_view { FUSSY_MARKER } else { 0 }),
             subscribed: model.sub.is_some(),
             timers: (model.ctimers_made, model.ltimers_all.len() as u32),
         }
